@@ -180,7 +180,7 @@ def step (w : World) : Sys → Res × World
     match resolveC w p with
     | .err e => (.err e, w)
     | .ok q =>
-      if (w.fs.get q).isSome then (.err .EEXIST, w)
+      if (w.fs.lookup q).isSome then (.err .EEXIST, w)
       else if !w.fs.isDir q.dropLast then (.err .ENOENT, w)
       else
         let pm := perm &&& 0o1777 &&& (0o7777 - w.umask)
@@ -227,14 +227,14 @@ def step (w : World) : Sys → Res × World
       | none => (.err .ENOENT, w)
       | some i =>
         if w.fs.isDir qo then (.err .EPERM, w)
-        else if (w.fs.get qn).isSome then (.err .EEXIST, w)
+        else if (w.fs.lookup qn).isSome then (.err .EEXIST, w)
         else if !w.fs.isDir qn.dropLast then (.err .ENOENT, w)
         else (.ok, { w with fs := w.fs.addName qn i })
   | .symlink target p =>
     match resolveC w p with
     | .err e => (.err e, w)
     | .ok q =>
-      if (w.fs.get q).isSome then (.err .EEXIST, w)
+      if (w.fs.lookup q).isSome then (.err .EEXIST, w)
       else if !w.fs.isDir q.dropLast then (.err .ENOENT, w)
       else if target = [] then (.err .ENOENT, w)
       else
@@ -244,7 +244,7 @@ def step (w : World) : Sys → Res × World
     match resolveC w p with
     | .err e => (.err e, w)
     | .ok q =>
-      if (w.fs.get q).isSome then (.err .EEXIST, w)
+      if (w.fs.lookup q).isSome then (.err .EEXIST, w)
       else if !w.fs.isDir q.dropLast then (.err .ENOENT, w)
       else
         let pm := perm &&& 0o7777 &&& (0o7777 - w.umask)
@@ -317,7 +317,7 @@ def step (w : World) : Sys → Res × World
     match resolve w name false with
     | .err e => (.err e, w)
     | .ok q =>
-      if (w.fs.get q).isSome then (.err .EEXIST, w)
+      if (w.fs.lookup q).isSome then (.err .EEXIST, w)
       else if !w.fs.isDir q.dropLast then (.err .ENOENT, w)
       else
         let pm := 0o700 &&& (0o7777 - w.umask)
